@@ -46,10 +46,10 @@ ASSUMPTIONS = [
     'individuals handed out by sample_individual_map_with_replacement are read as (id, first position, last position), '
     'which is how biogeme hands the map to the engine',
 ]
-MIN_DISTINCT = {'quick': 500, 'thorough': 8000}
+MIN_DISTINCT = {'quick': 1000, 'thorough': 8000}
 CASE_TIMEOUT = 120
 SHARD_TIMEOUT = {'quick': 2400, 'thorough': 14400}  # generous: the machine is shared; a watchdog firing is inconclusive, never a verdict
-N_RANDOM = {'quick': 1200, 'thorough': 15000}
+N_RANDOM = {'quick': 2500, 'thorough': 15000}
 
 
 # ---------------------------------------------------------------------------
